@@ -8,6 +8,7 @@ Require Export MS.Corr.AggCols.
 Local Open Scope Z_scope.
 
 Record case := {
+  k_off : Z;                                (* UTC offset (seconds) of the system timezone *)
   k_fmult : Z; k_fsuffix : string;          (* fine timeframe *)
   k_cmult : Z; k_csuffix : string;          (* coarse timeframe *)
   k_ticks : kinput;                         (* the tick rows (one price group) *)
@@ -16,8 +17,8 @@ Record case := {
   k_codeC : nat; k_outC : list (list Z)     (* TickCandler(coarse) on the ticks *)
 }.
 
-Definition cd_fine (k : case) := cd_of (k_fmult k) (k_fsuffix k).
-Definition cd_coarse (k : case) := cd_of (k_cmult k) (k_csuffix k).
+Definition cd_fine (k : case) := cd_of_zone (k_off k * NS) (k_fmult k) (k_fsuffix k).
+Definition cd_coarse (k : case) := cd_of_zone (k_off k * NS) (k_cmult k) (k_csuffix k).
 
 Definition obs_match (code : nat) (out : list (list Z)) (r : Res cmap) : bool :=
   match r with
@@ -47,7 +48,7 @@ Fixpoint nodupb (l : list Z) : bool :=
 Definition in_domain (k : case) : bool :=
   match extract (mk_input (k_ticks k)) with
   | Ok rows =>
-      dividesb (cd_fine k) (cd_coarse k)
+      dividesb_zone (k_off k * NS) (cd_fine k) (cd_coarse k)
       && forallb (fun r => negb (truncate (cd_fine k) (b_t r) =? zero_time) && negb (b_t r =? zero_time)) rows
       && nodupb (map b_t rows) && f32_nonan (map b_h rows) && f32_nonan (map b_l rows)
   | _ => false
